@@ -1,7 +1,7 @@
 CONSTANTS
-  Codec = "lines"
-  Alpha = {97, 13, 10, 255}
-  MaxLen = 5
+  Codec = "lpe"
+  Alpha = {0, 1, 2, 9}
+  MaxLen = 4
   LpBad = 9
   LpScale = 1
   EofDecodes = TRUE
